@@ -10,7 +10,7 @@ RULE = ("Alignments as in C06 (kalign results on generated protein/nucleotide se
         "columns; Clustal: header line, every block lists every sequence once in order, full blocks of 60, equal widths; MSF: "
         "!!AA/!!NA line and Type: P/N agree with the kind, 'MSF: <len>' and every 'Len:' equal the true length, every per-row "
         "'Check:' equals my GCG checksum of the row as written, '//' present, blocks as for Clustal; parsed rows equal "
-        "kalign's own rows. Non-trivial = width > 60 and >= 1 gap in row 0; distinct by hash of the case.")
+        "kalign's own rows. extra(): enumerated sweeps (row counts, widths, name lengths, output file name lengths) and alignments of 2.3 million columns (thorough: 0.9..5 million, both kinds) read, finalised and written on the un-sanitised build (arithmetic that is only wrong at extreme but legal sizes). Non-trivial = width > 60 and >= 1 gap in row 0; distinct by hash of the case.")
 ASSUMPTIONS = ["the MSF header's total Check is recorded but not judged (the property names the per-row values)",
                "molecule type is judged only when a C13 premise determines the kind of the residues"]
 BUDGET = {"quick": dict(examples=170, workers=12, seconds=60), "thorough": dict(examples=1300, workers=16, seconds=600)}
@@ -82,7 +82,54 @@ def judge_file(fmt, text, names, rows, kind):
     return None
 
 
+def giant_rows(g):
+    """one full row of g['width'] residues and two rows that are gaps except for a window (pure function of g)"""
+    import random
+    rnd = random.Random(g["seed"])
+    alpha = gen.NUC if g["kind"] == "dna" else gen.AA
+    W = g["width"]
+    full = "".join(rnd.choices(alpha, k=W))
+    rows = [full]
+    for k in range(2):
+        a = rnd.randrange(0, W - 400)
+        b = a + rnd.randrange(100, 400)
+        rows.append("-" * a + full[a:b] + "-" * (W - b))
+    if g.get("mostly_full"):
+        rows[1] = full[:W - 7] + "-" * 7
+    return ["giant", "s1", "s2"], rows
+
+
+def check_giant(case):
+    """alignments of 10^6 columns and more (arithmetic that is only wrong for extreme but legal sizes): read, finalise,
+    write in all formats on the un-sanitised build, no dump"""
+    g = case["giant"]
+    names, rows = giant_rows(g)
+    wd = runner.workdir()
+    fp = wd.write(formats.write_fasta(names, rows, width=0).encode("latin-1"), ".afa")
+    outs = {fmt: wd.path("." + fmt) for fmt in ("fasta", "clu", "msf")}
+    lines = ["read 0 1 %s" % fp, "finalise 0"] + ["write 0 %s %s" % (fmt, outs[fmt]) for fmt in ("fasta", "clu", "msf")] + ["free 0"]
+    pr = runner.run_probe(lines, variant="plain", cpu=600)
+    if pr.ended.bad or pr.ended.rc != 0 or pr.steps is None or len(pr.steps) != len(lines):
+        if pr.ended.kind == "hang":
+            return engine.discard("cpu-limit")
+        return engine.violation({"what": "process failure", **pr.ended.brief()}, kind="crash")
+    if pr.steps[0]["rc"] != 0 or pr.steps[1]["rc"] != 0:
+        return engine.discard("source alignment could not be produced (C01/C06 territory)")
+    cl = ["source=synthetic", "kind=%s" % g["kind"], "width>=10^6"]
+    for k, fmt in enumerate(("fasta", "clu", "msf")):
+        if pr.steps[2 + k]["rc"] != 0:
+            return engine.violation({"what": "write(%s) failed" % fmt, "width": g["width"]}, classes=cl, kind="status")
+        with open(outs[fmt], "rb") as fh:
+            text = fh.read().decode("latin-1")
+        bad = judge_file(fmt, text, names, rows, g["kind"])
+        if bad:
+            return engine.violation({"what": bad, "width": g["width"], "nrows": 3, "head": text[:400]}, classes=cl)
+    return engine.ok(True, cl, {"width": g["width"], "kind": g["kind"]}, key="giant:%d:%s" % (g["width"], g["kind"]))
+
+
 def check(case):
+    if case.get("giant"):
+        return check_giant(case)
     src = case["src"]
     wd = runner.workdir()
     if src["source"] == "synthetic":
@@ -185,5 +232,13 @@ def extra(tier, seed, stats):
             out.append({"case": c, "detail": dict(r["detail"], sweep_item=list(it)), "kind": r.get("kind")})
         elif r.get("nontrivial"):
             stats.nontrivial.add("sweep:%s:%s:%s" % tuple(it))
+    widths = [2300000] if tier == "quick" else [900000, 1700000, 2300000, 3400000, 5000000]
+    for i, W in enumerate(widths):
+        for kind in (("protein",) if tier == "quick" else ("protein", "dna")):
+            c = {"giant": {"seed": seed * 31 + i, "width": W, "kind": kind, "mostly_full": i % 2 == 1}}
+            r = check_giant(c)
+            stats.record(c, r)
+            if r["status"] == "violation":
+                out.append({"case": c, "detail": r["detail"], "kind": r.get("kind")})
     stats.extra["sweep"] = "every row count %s (width 2), every width 1..260 (3 rows), every name length 1..200, every output file name length 20..250 for a protein alignment (exhaustive over those ranges)" % ("2..400, 500..524, 1000..1039" if tier == "quick" else "2..2200")
     return out
